@@ -21,6 +21,8 @@ const int carr[3] = {1,2,3}; const int carrb[3] = {1,2,3}; const int carr4[4] = 
 typedef int[0,5] T5; typedef int[0,3] T3; T5 t5v, t5w; T3 t3v, t3w; int[0,3] b3v, b3w; int[0,3] ba0[2]; int[0,3] ba0b[2]; T5 ba5[2]; T5 ba5b[2]; const int[0,5] cba5[2] = {1,2};
 typedef struct { int[0,3] f; } SR3; SR3 sr3, sr3b; typedef struct { T5 f; } SR5; SR5 sr5, sr5b; const T5 ct5 = 2;
 void f_T5(T5 &a) {} void f_T3(T3 &a) {} void f_b3(int[0,3] &a) {} void f_ba0(int[0,3] &a[2]) {} void f_ba5(T5 &a[2]) {} void g_T5(const T5 &a) {} void g_b3(const int[0,3] &a) {}
+typedef int[0,2] I02; int xt2[int[0,2]]; int xt2b[int[0,2]]; int xi3[I02]; int xi3b[I02]; int[-32768,32767] fr, fr2; int xe[2+1]; int xeb[2+1]; const int N3 = 3; int xn[N3]; int xnb[N3]; int xm[3][int[0,1]]; int xmb[3][2];
+void f_xt2(int &a[int[0,2]]) {} void f_xi3(int &a[I02]) {} void f_fr(int[-32768,32767] &a) {} void f_xe(int &a[2+1]) {} void f_xn(int &a[N3]) {} void f_xm(int &a[3][int[0,1]]) {} void f_xmb(int &a[3][2]) {}
 int f1(int a) { return a; } double fd(double a) { return a; } bool fb(int a) { return a > 0; }
 void f_int(int &a) {} void f_bint(int[0,5] &a) {} void f_w(int[0,7] &a) {} void f_bool(bool &a) {} void f_double(double &a) {} void f_clock(clock &a) {}
 void f_S(S &a) {} void f_S2(S2 &a) {} void f_SA(SA &a) {} void f_SB(SB &a) {} void f_SC(SC &a) {} void f_arr(int &a[3]) {} void f_arr4(int &a[4]) {} void f_barr(bool &a[3]) {}
@@ -59,6 +61,13 @@ CLASSES = {
     'typedef-bounded-array-0-5': ['ba5', 'ba5b', 'cba5'],
     'struct-bounded-0-3': ['sr3', 'sr3b'],
     'struct-typedef-bounded-0-5': ['sr5', 'sr5b'],
+    # the same array type spelled differently: by size, by index type, by typedef'd index type, by a size expression, by a named constant
+    'int-array-by-index-type': ['xt2', 'xt2b'],
+    'int-array-by-typedef-index': ['xi3', 'xi3b'],
+    'int-array-size-expression': ['xe', 'xeb'],
+    'int-array-size-constant': ['xn', 'xnb'],
+    'int-2d-array-mixed': ['xm', 'xmb'],
+    'full-range-int': ['fr', 'fr2'],
 }
 
 # inline-if inside a context that needs an lvalue / a reference argument: ctx(c ? A : B) vs ctx(!c ? B : A)
@@ -72,6 +81,8 @@ CONTEXTS = {
     'bounded-arrays': (['ba0', 'ba5', 'cba5', 'ba0b'], ['f_ba0(%s)', 'f_ba5(%s)', '(%s)[0] = 1', '(%s) = ba0b', '(%s)[1]']),
     'bounded-structs': (['sr3', 'sr5', 'sr3b'], ['(%s).f = 1', '(%s) = sr3b', '(%s).f']),
     'bounded-ints': (['b3v', 't5v', 'ct5', 't3v', 'r'], ['f_b3(%s)', 'f_T5(%s)', 'g_b3(%s)', '(%s) = 1', '(%s)++']),
+    'same-array-type-spelled-differently': (['arr', 'xt2', 'xi3', 'xe', 'xn', 'carr'], ['f_arr(%s)', 'f_xt2(%s)', 'f_xi3(%s)', 'f_xn(%s)', '(%s)[0] = 1', '(%s) = arr2', '(%s) = xt2b', '(%s)[1]']),
+    'full-range-ints': (['i', 'fr', 'ci', 'r'], ['f_int(%s)', 'f_fr(%s)', '(%s) = 1', '(%s)++']),
 }
 OPS = ['+', '*', '==', '!=', '&&', '||', '&', '|', '^', '<?', '>?']
 CONDS = ['p', 'i < j', 'true']
@@ -102,6 +113,13 @@ REFS = {
     'int[0,3]': ('f_b3', 'g_b3', ['b3v', 'b3w'], []),
     'int[0,3][2]': ('f_ba0', None, ['ba0', 'ba0b'], []),
     'T5[2]': ('f_ba5', None, ['ba5', 'ba5b'], []),
+    'int[int[0,2]]': ('f_xt2', None, ['xt2', 'xt2b'], []),
+    'int[I02]': ('f_xi3', None, ['xi3', 'xi3b'], []),
+    'int[2+1]': ('f_xe', None, ['xe', 'xeb'], []),
+    'int[N3]': ('f_xn', None, ['xn', 'xnb'], []),
+    'int[3][int[0,1]]': ('f_xm', None, ['xm'], []),
+    'int[3][2]': ('f_xmb', None, ['xmb'], []),
+    'int[-32768,32767]': ('f_fr', None, ['fr', 'fr2'], []),
 }
 
 RULE = ('operand expressions are drawn from %d type classes (%s) - variables, constants, literals and compound expressions of each '
